@@ -225,8 +225,10 @@ const memtierdConfig = `
 classes:
 - name: swap
   allowswap: true
+  memtierdconfig: "marker: swap"
 - name: noswap
   allowswap: false
+  memtierdconfig: "marker: noswap"
 - name: silver
 `
 
@@ -402,6 +404,19 @@ func (e engine) Execute(prop string, plan sim.Plan, seed uint64, res *sim.RunRes
 			a, _, err := mth.CreateContainer(pd, ctr)
 			return a, err
 		})
+		if prop == "C18" && !c.NoConfig && !c.NoLinux {
+			// StartContainer resolves the class again: the memtierd it prepares
+			// must be the one of the class that is effective for this container
+			res.Check("memtierd-start-class")
+			want := ""
+			if cls, ok := refPluginEffective(c.Annotations, mtdSuffix, c.Target)["class"]; ok && (cls == "swap" || cls == "noswap") {
+				want = "marker: " + cls
+			}
+			if got := mt.StartedClassMarker(pod, ctr, root); got != want {
+				res.Violate("C18", "memtierd-start-class", "C18 memtierd-start-class", step, "memtierd StartContainer for container %q prepared the memtierd configuration %q, the class effective for it gives %q; annotations: %v", c.Target, got, want, c.Annotations)
+			}
+			mt.StopContainer(pod, ctr)
+		}
 		if prop == "C14" {
 			guard(step, "memtierd StartContainer", func() { mth.StartContainer(pod, ctr) })
 			guard(step, "memtierd StopContainer", func() { mth.StopContainer(pod, ctr) })
